@@ -222,6 +222,24 @@ def mutates_lists_aug(n):
     return isinstance(n.value, (ast.List, ast.ListComp, ast.Call))
 
 
+def reads_before_bound(stmts, name):
+    """may the statements read `name` before they (certainly) bind it?  (straight-line scan; anything unclear counts as a read)"""
+    def loads(node):
+        return any(isinstance(n, ast.Name) and n.id == name and isinstance(n.ctx, ast.Load) for n in ast.walk(node))
+    for st in stmts:
+        if isinstance(st, ast.Assign) and len(st.targets) == 1 and isinstance(st.targets[0], ast.Name) and st.targets[0].id == name:
+            return loads(st.value)
+        if isinstance(st, ast.For) and isinstance(st.target, ast.Name) and st.target.id == name:
+            if loads(st.iter):
+                return True
+            # the loop binds it only if it runs: what follows may still see the old value -> keep scanning after the loop,
+            # but the body itself starts with the name bound
+            continue
+        if any(isinstance(n, ast.Name) and n.id == name for n in ast.walk(st)):
+            return loads(st) or True
+    return False
+
+
 def contains(stmts, kinds):
     for s in stmts:
         for n in ast.walk(s):
@@ -257,6 +275,7 @@ class FunTrans(object):
         self.m, self.spec, self.fdef = modtrans, fspec, fdef
         self.counter = 0
         self.fuels = list(fspec.get("fuel", []))
+        self.fuels_used = set()
         self.params = []          # (python name, type)
         self.kwparams = {}        # name -> type
         self.alias_ok = fspec.get("alias_ok", False)
@@ -265,6 +284,9 @@ class FunTrans(object):
         self.callee_raises = set()
         self.static_vals = dict(fspec.get("static_vals", {}))     # parameter -> the literal this variant is specialised to
         self.abstract_used = set()
+        self.static_locals = {}   # local name -> the bool literal it certainly holds here (constant propagation)
+        self.dyn_depth = 0        # > 0 inside loop bodies / branches of run-time conditions
+        self.facts = {}           # name -> c : `name >= c` holds from here on (after `if name < c: return ...`)
         self.local_fns = {}       # nested function name -> {"owned": [...]}
         self.outer_names = ()     # (nested functions) the variables of the enclosing function
         # a function that never updates a list in place may give a list a second name
@@ -402,6 +424,8 @@ class FunTrans(object):
             return b, "(negb %s)" % x, "bool"
         if isinstance(node.op, ast.Not) and t == "int":
             return b, "(%s =? 0)" % x, "bool"          # not n  on an int
+        if isinstance(node.op, ast.Not) and isinstance(t, tuple) and t[0] == "list":
+            return b, "(zlen %s =? 0)" % x, "bool"     # not l  on a list
         if isinstance(node.op, ast.UAdd) and t in ("int", "float", "ratio"):
             return b, x, t
         fail(node, "unary operator not understood")
@@ -542,6 +566,8 @@ class FunTrans(object):
     def e_IfExp(self, node, env):
         if isinstance(node.test, ast.Name) and node.test.id in self.static_vals and node.test.id not in env:
             return self.expr(node.body if self.static_vals[node.test.id] else node.orelse, env)
+        if isinstance(node.test, ast.Name) and node.test.id in self.static_locals and node.test.id in env:
+            return self.expr(node.body if self.static_locals[node.test.id] else node.orelse, env)
         bc, c, tc = self.expr(node.test, env)
         b1, x1, t1 = self.expr(node.body, env)
         b2, x2, t2 = self.expr(node.orelse, env)
@@ -1026,6 +1052,8 @@ class FunTrans(object):
         return self.minmax(node, env, "zmax", "pymax")
 
     def p_list(self, node, env):
+        if not node.args and not node.keywords and node.func.id == "list":
+            return [], "[]", ("list", TVar())          # list(): a new empty list
         (b, x, t), = self.args1(node, env)
         t = resolve(t)
         if isinstance(t, tuple) and t[0] == "list":
@@ -1053,9 +1081,18 @@ class FunTrans(object):
             return x
         if t == "int":
             return "(negb (%s =? 0))" % x
+        if isinstance(t, tuple) and t[0] == "list":
+            return "(negb (zlen %s =? 0))" % x        # a list is true when it is not empty
         fail(node, "truth value of a %s" % show_type(t))
 
     def p_sorted(self, node, env):
+        if len(node.args) == 1 and not node.keywords and isinstance(node.args[0], ast.Call) \
+                and isinstance(node.args[0].func, ast.Name) and node.args[0].func.id == "set" and "set" not in env \
+                and len(node.args[0].args) == 1 and not node.args[0].keywords:
+            b, x, t = self.expr(node.args[0].args[0], env)
+            if resolve(t) == ("list", "float"):
+                return b, "(py_sorted_uniq K %s)" % x, t      # sorted(set(l)): the distinct values, ascending
+            fail(node, "sorted(set()) of a %s" % show_type(t))
         (b, x, t), = self.args1(node, env)
         t = resolve(t)
         if t == ("list", ("list", "float")):
@@ -1084,6 +1121,11 @@ class FunTrans(object):
         v, x, acc = self.fresh(), self.fresh(), self.fresh()
         self.callee_raises |= set(EXC.values())
         return bx + bi + ["do %s <- gfor %s (fun %s %s => %s %s %s) %s ;;" % (v, xs, x, acc, mangle(fname), acc, x, init)], v, ft[2]
+
+    def p___range_last__(self, node, env):
+        (b1, lo, t1), (b2, hi, t2) = self.args1(node, env, 2)
+        v = self.fresh()
+        return b1 + b2 + ["do %s <- range_last %s %s ;;" % (v, lo, hi)], v, "int"
 
     def p_deepcopy(self, node, env):
         (b, x, t), = self.args1(node, env)
@@ -1244,6 +1286,7 @@ class FunTrans(object):
                 self.no_alias(ve, tk)
                 if resolve(tk) == "unit":
                     fail(s, "assignment of None")
+                self.facts.pop(e.id, None); self.static_locals.pop(e.id, None)
                 env[e.id] = tk
                 self.rebound = self.rebound | {e.id}
                 out += [ind + "let %s := %s in" % (mangle(e.id), xk)]
@@ -1262,6 +1305,11 @@ class FunTrans(object):
                 fail(s, "assignment of None")
             env[name] = t
             self.rebound = self.rebound | {name}
+            self.facts.pop(name, None)
+            if isinstance(vnode, ast.Constant) and isinstance(vnode.value, bool) and self.dyn_depth == 0:
+                self.static_locals[name] = vnode.value       # flag = True / False on a path every execution takes
+            else:
+                self.static_locals.pop(name, None)
             # `x <- e ;; let y := x in`  ->  `y <- e ;;`
             if b and b[-1].startswith("do %s <- " % x) and x.startswith("v_"):
                 lines = b[:-1] + ["do %s <- %s" % (mangle(name), b[-1][len("do %s <- " % x):])]
@@ -1281,6 +1329,7 @@ class FunTrans(object):
             names = [e.id for e in tgt.elts]
             for n, tt in zip(names, t[1]):
                 env[n] = tt
+                self.facts.pop(n, None); self.static_locals.pop(n, None)
             self.rebound = self.rebound | set(names)
             patt = "'(%s)" % ", ".join(mangle(n) for n in names)
             if b and b[-1].startswith("do %s <- " % x) and x.startswith("v_"):
@@ -1471,7 +1520,7 @@ class FunTrans(object):
         ctx = Ctx(lambda x: "GOk %s" % x,
                   lambda env2, ind2: fail(f, "the function can fall off its end (returns None)"), self.rtype)
         body = self.block(f.body, env, ctx, ind + "  ")
-        if self.fuels:
+        if len(self.fuels_used) != len(self.fuels):
             fail(f, "unused fuel expressions in the spec")
         args = " ".join("(%s : %s)" % (mangle(n), coq_type(t)) for n, t in self.params)
         body[-1] = body[-1] + ") in"
@@ -1518,10 +1567,34 @@ class FunTrans(object):
             if always_terminates(live):
                 return self.block(list(live), env, ctx, ind)       # what follows the if is unreachable in this variant
             return self.block(list(live) + list(rest), env, ctx, ind)
+        if isinstance(s.test, ast.Name) and s.test.id in self.static_locals and s.test.id in env:
+            # the flag certainly holds this literal here: only one branch can run (the branches may not even have the
+            # same types: knot_removal's is_volume)
+            live = s.body if self.static_locals[s.test.id] else s.orelse
+            if always_terminates(live):
+                return self.block(list(live), env, ctx, ind)
+            return self.block(list(live) + list(rest), env, ctx, ind)
         bc, c, tc = self.expr(s.test, env)
         c = self.truth(c, tc, s)          # `if n:` on an int is `n != 0`
         out = self.emit(bc, ind)
         tb, te = always_terminates(s.body), always_terminates(s.orelse)
+        # `if name < c: return / raise` at the top level of the function: name >= c from here on
+        t_ = s.test
+        newfact = None
+        if s in self.fdef.body and always_terminates(s.body) and not s.orelse and isinstance(t_, ast.Compare) and len(t_.ops) == 1 \
+                and isinstance(t_.ops[0], ast.Lt) and isinstance(t_.left, ast.Name) and isinstance(t_.comparators[0], ast.Constant) \
+                and type(t_.comparators[0].value) is int and resolve(env.get(t_.left.id)) == "int":
+            newfact = (t_.left.id, t_.comparators[0].value)
+        # what a branch assigns is no longer a known constant afterwards
+        for n in assigned_names(list(s.body) + list(s.orelse)):
+            self.static_locals.pop(n, None)
+        self.dyn_depth += 1
+        try:
+            return self.s_If_dynamic(s, rest, env, ctx, ind, out, c, tb, te, newfact)
+        finally:
+            self.dyn_depth -= 1
+
+    def s_If_dynamic(self, s, rest, env, ctx, ind, out, c, tb, te, newfact):
         dead = Ctx(ctx.ret, lambda env2, ind2: fail(s, "internal: fall-through of a terminating block"), ctx.rtype)
         if tb and te:
             if rest:
@@ -1529,8 +1602,17 @@ class FunTrans(object):
             return out + [ind + "if %s then" % c] + self.block(s.body, env, dead, ind + "  ") + \
                 [ind + "else"] + self.block(s.orelse, env, dead, ind + "  ")
         if tb:
-            return out + [ind + "if %s then" % c] + self.block(s.body, env, dead, ind + "  ") + \
-                [ind + "else"] + self.block(list(s.orelse) + list(rest), env, ctx, ind + "  ")
+            thenb = self.block(s.body, env, dead, ind + "  ")
+            if newfact is not None:
+                self.facts[newfact[0]] = newfact[1]
+                self.dyn_depth -= 1         # the rest of the function continues in the else branch, on every execution
+                try:
+                    elseb = self.block(list(s.orelse) + list(rest), env, ctx, ind + "  ")
+                finally:
+                    self.dyn_depth += 1
+            else:
+                elseb = self.block(list(s.orelse) + list(rest), env, ctx, ind + "  ")
+            return out + [ind + "if %s then" % c] + thenb + [ind + "else"] + elseb
         if te:
             return out + [ind + "if %s then" % c] + self.block(list(s.body) + list(rest), env, ctx, ind + "  ") + \
                 [ind + "else"] + self.block(s.orelse, env, dead, ind + "  ")
@@ -1589,6 +1671,29 @@ class FunTrans(object):
         env0 = dict((k, v) for k, v in env.items() if k not in shadowed)
         pat, env2 = self.bind_target(s.target, et, env0)
         state = self.loop_state(s.body, env0)
+        # `for t in range(a, n)` with a literal a and n >= a + 1 known (after `if n < c: return`): the range is not empty, so
+        # after the loop t is its last element n - 1; made explicit as the assignment t = n - 1 in front of what follows
+        if is_range and isinstance(s.target, ast.Name) and rest and not contains(s.body, (ast.Return,)):
+            a_ = s.iter.args
+            lo = 0 if len(a_) == 1 else a_[0].value if (len(a_) == 2 and isinstance(a_[0], ast.Constant)
+                                                        and type(a_[0].value) is int) else None
+            hi = a_[-1] if len(a_) <= 2 else None
+            used_after = reads_before_bound(rest, s.target.id)
+            if used_after and lo is not None and isinstance(hi, ast.Name) and hi.id not in assigned \
+                    and self.facts.get(hi.id) is not None and self.facts[hi.id] >= lo + 1 and s.target.id not in shadowed:
+                last = ast.parse("%s = %s - 1" % (s.target.id, hi.id)).body[0]
+                rest = [ast.copy_location(last, s)] + list(rest)
+                ast.fix_missing_locations(rest[0])
+            elif used_after and lo is not None and hi is not None and s.target.id not in shadowed \
+                    and self.spec.get("loop_var_after_loop") == "checked" \
+                    and not any(isinstance(n, ast.Name) and n.id in assigned for n in ast.walk(hi)):
+                # no such fact: decided at run time.  After a non-empty range the variable is the last element; after an
+                # empty one Python uses an earlier binding of the name (possibly from a previous pass of an enclosing loop) or
+                # raises UnboundLocalError - neither is modelled: the generated code GIVES UP there (GErr OutOfFuel, the
+                # one outcome no handler sees); the tie theorems assume the range is not empty
+                last = ast.parse("%s = __range_last__(%d, %s)" % (s.target.id, lo, ast.unparse(hi))).body[0]
+                rest = [ast.copy_location(last, s)] + list(rest)
+                ast.fix_missing_locations(rest[0])
         return self.emit(b, ind) + self.loop(s, "gfor", "gfor_ret", "%s (fun %s %%s =>" % (src, pat), state, env0, env2, rest, ctx, ind)
 
     def writes_only_current(self, s, name):
@@ -1634,9 +1739,14 @@ class FunTrans(object):
             fail(s, "while ... else")
         if contains(s.body, (ast.Break, ast.Continue)):
             fail(s, "break / continue")
-        if not self.fuels:
+        # the i-th fuel expression of the spec belongs to the i-th while statement of the function, in source order (a
+        # statement may be translated several times: branches are probed for the variables they bind)
+        whiles = sorted((n for n in ast.walk(self.fdef) if isinstance(n, ast.While)), key=lambda n: (n.lineno, n.col_offset))
+        k = [id(n) for n in whiles].index(id(s))
+        if k >= len(self.fuels):
             fail(s, "no fuel expression in the spec for this while loop")
-        fuel = ast.parse(self.fuels.pop(0), mode="eval").body
+        self.fuels_used.add(k)
+        fuel = ast.parse(self.fuels[k], mode="eval").body
         bf, fx, ft = self.expr(fuel, env)
         if bf or resolve(ft) != "int":
             fail(s, "fuel must be a pure int expression")
@@ -1665,7 +1775,13 @@ class FunTrans(object):
             bctx = Ctx(lambda x: "GOk (GRet %s)" % x, fall, ctx.rtype)
         else:
             bctx = Ctx(None, fall, ctx.rtype)
-        body = self.block(s.body, env_body, bctx, ind + "  ")
+        for n in assigned_names(s.body):          # not constants inside (or after) the loop
+            self.static_locals.pop(n, None); self.facts.pop(n, None)
+        self.dyn_depth += 1
+        try:
+            body = self.block(s.body, env_body, bctx, ind + "  ")
+        finally:
+            self.dyn_depth -= 1
         self.rebound = saver | set(state)
         head = head % pat
         if not has_ret:
@@ -1688,6 +1804,8 @@ class FunTrans(object):
     def s_Try(self, s, rest, env, ctx, ind):
         if s.orelse or s.finalbody:
             fail(s, "try ... else / finally")
+        for n in assigned_names(list(s.body) + [st for h in s.handlers for st in h.body]):
+            self.static_locals.pop(n, None); self.facts.pop(n, None)
         if not assigned_names(s.body) and not contains(s.body, (ast.Return,)):
             return self.s_Try_unit(s, rest, env, ctx, ind)
         # a body that assigns: the handlers see the state before the try, which is only right if the body is one simple
@@ -1819,7 +1937,7 @@ class FunTrans(object):
         ctx = Ctx(lambda x: "GOk %s" % x,
                   lambda env2, ind2: fail(self.fdef, "the function can fall off its end (returns None)"), rt)
         body = self.block(self.fdef.body, env, ctx, "  ")
-        if self.fuels:
+        if len(self.fuels_used) != len(self.fuels):
             fail(self.fdef, "unused fuel expressions in the spec")
         for k in self.kwparams:
             if k not in self.kwdefaults:
@@ -1903,7 +2021,7 @@ def close(lines, suffix, newline=None):
     return lines
 
 
-PRIMITIVES = ("len", "abs", "float", "int", "round", "min", "max", "list", "tuple", "deepcopy", "sum", "bool", "sorted", "reduce")
+PRIMITIVES = ("len", "abs", "float", "int", "round", "min", "max", "list", "tuple", "deepcopy", "sum", "bool", "sorted", "reduce", "__range_last__")
 
 
 # ----------------------------------------------------------------------------------------------- modules
@@ -2238,6 +2356,30 @@ SPEC = {
              "params": {"dim": "int", "degree": "int", "kv": "list[float]", "cpts": MAT, "rs": "list[int]", "deriv_order": "int"},
              "returns": "list[list[list[optfloat]]]",
              "type_variants": [{"suffix": "opt", "params": {"cpts": "list[list[optfloat]]"}}]},
+            # @lru_cache: the undecorated functions
+            {"name": "knot_removal_alpha_i",
+             "params": {"u": "float", "degree": "int", "knotvector": "list[float]", "num": "int", "idx": "int"}, "returns": "float"},
+            {"name": "knot_removal_alpha_j",
+             "params": {"u": "float", "degree": "int", "knotvector": "list[float]", "num": "int", "idx": "int"}, "returns": "float"},
+            # control points = lists of floats (the is_volume branches are dead for these types: decided by constant
+            # propagation of the flag).  alias_ok: points are stored under second names (temp[0] = ctrlpts_new[first - 1],
+            # ctrlpts_new[j] = ctrlpts_new[k]) but never updated in place in the non-volume branches.
+            # abstract_calls: linalg.point_distance (square root) is the parameter `dist`.
+            # fuel: each pass of `while j - i > t` lowers j - i by 2.
+            {"name": "knot_removal",
+             "params": {"degree": "int", "knotvector": "list[float]", "ctrlpts": MAT, "u": "float"},
+             "kwargs": {"tol": "float", "num": "int", "s": "int", "span": "int"}, "returns": MAT, "alias_ok": True,
+             "fuel": ["abs(j - i) + 1", "abs(j - i) + 1"],
+             "abstract_calls": {"linalg.point_distance": {"param": "dist", "type": "fn(list[float],list[float])->float"}}},
+            # control points = lists of floats.  alias_ok: points are stored under second names (new_ctrlpts[j] = ctrlpts[j]) and
+            # knot_list = rknots renames a list that is not touched again; no point is updated in place in the float branches.
+            # loop_var_after_loop: rknots.append(knot_list[i + 1]) reads the variable of the bisection loop after the loop.
+            {"name": "knot_refinement",
+             "params": {"degree": "int", "knotvector": "list[float]", "ctrlpts": MAT},
+             "kwargs": {"tol": "float", "check_num": "bool", "knot_list": "list[float]", "add_knot_list": "list[float]",
+                        "density": "int"},
+             "returns": "tuple[%s,list[float]]" % MAT, "alias_ok": True, "loop_var_after_loop": "checked",
+             "fuel": ["j + 2", "abs(i) + 1"]},
             # alias_ok: PKL[k][0][i][j] = PKu[k][i] stores points of the fresh tables PKu / PKuv, which are never updated
             # afterwards; the points of PKL are only replaced as a whole
             {"name": "surface_deriv_cpts",
